@@ -1,6 +1,7 @@
 import QipVerif.Lemmas.GridMerge
 import QipVerif.Lemmas.GridOde
 import QipVerif.Lemmas.GridCatchUp
+import QipVerif.Lemmas.GridKeep
 import QipVerif.Gen.FillCubic
 /-!
 # C14 — pulse evolution is the time-ordered propagator of the stated Hamiltonian
@@ -657,5 +658,97 @@ example : (fillVW true true (1/10000000000) [0, 1/2, 1/2 + 8/100000000000, 1] [1
   constructor
   · decide +kernel
   · decide +kernel
+
+/-! ## the reference point of the de-duplication in `get_full_tlist` (fixes/C14-8.patch)
+
+`Grid.fullTlistK kk` / `Grid.fullCoeffsVWK zl w kk`: `kk = false` is the code as found (a point is dropped when it is within `tol` of
+its PREDECESSOR in the sorted list, kept or not), `kk = true` the repaired loop (within `tol` of the last KEPT point).  The check
+reads `kk` from the tree.  The theorems about the merged grid and everything built on it hold for both; only the repaired one
+represents every channel point. -/
+
+/-- the variant `kk = false` is the original function -/
+theorem variants_k_false :
+    (∀ tol grids, fullTlistK false tol grids = fullTlist tol grids) ∧
+    (∀ zl w tol chans, fullCoeffsVWK zl w false tol chans = fullCoeffsVW zl w tol chans) :=
+  ⟨fullTlistK_false, fullCoeffsVWK_false⟩
+
+/-- `merged_strict` for both reference points -/
+theorem merged_strict_k (kk : Bool) (tol : Rat) (grids : List (List Rat)) (T : List Rat) (h : fullTlistK kk tol grids = some T) :
+    T.Pairwise (· < ·) ∧ GapsGt tol T ∧ ∀ t ∈ T, ∃ g ∈ grids, t ∈ g :=
+  ⟨fullTlistK_pairwise h, fullTlistK_gaps h, fullTlistK_subset h⟩
+
+example : fullTlistK true (1/10) [[0, 1, 2], [0, 3/2, 41/20, 3]] = some [0, 1, 3/2, 2, 3] := by decide +kernel
+
+/-- `merged_contains` for both reference points -/
+theorem merged_contains_k (kk : Bool) (tol : Rat) (grids : List (List Rat)) (hne : grids ≠ []) (hsep : SepAll tol grids) :
+    ∃ T, fullTlistK kk tol grids = some T ∧ T.Pairwise (· < ·) ∧
+      (∀ g ∈ grids, ∀ x ∈ g, x ∈ T) ∧ (∀ t ∈ T, ∃ g ∈ grids, t ∈ g) := by
+  refine ⟨sortU grids.flatten, fullTlistK_eq_sortU kk hne hsep, sortU_pairwise _, ?_, ?_⟩
+  · intro g hg x hx; rw [mem_sortU, List.mem_flatten]; exact ⟨g, hg, hx⟩
+  · intro t ht; rw [mem_sortU, List.mem_flatten] at ht; exact ht
+
+/-- **The repaired merged grid represents every channel point, unconditionally**: whatever the grids are (chains of
+near-duplicates included), every point of every channel has a merged point at most `tol` below it. -/
+theorem merged_covers (tol : Rat) (grids : List (List Rat)) (T : List Rat) (htol : 0 ≤ tol)
+    (h : fullTlistK true tol grids = some T) : ∀ g ∈ grids, ∀ x ∈ g, ∃ t ∈ T, t ≤ x ∧ x - t ≤ tol :=
+  fullTlistK_true_covers htol h
+
+/-- **The code as found does not**: three channels with the points `1`, `1 + 0.7·tol`, `1 + 1.4·tol`.  Both later points are
+dropped, although the last is more than `tol` from every merged point; the third channel then keeps its old coefficient
+`-9/10` over the whole merged slot `[1, 2)`, where its value is `17/10` — with both repairs of `_fill_coeff` in place.  The
+repaired de-duplication keeps the point and the rows are the step functions. -/
+theorem C14_counterexample_chained :
+    fullTlistK false (1/10000000000) [[0, 1, 2], [0, 1 + 7/100000000000, 2], [0, 1 + 14/100000000000, 2]] = some [0, 1, 2]
+    ∧ (fullCoeffsVWK true true false (1/10000000000)
+        [.arr [0, 1, 2] [1/2, -4/5], .arr [0, 1 + 7/100000000000, 2] [11/10, 3/10],
+         .arr [0, 1 + 14/100000000000, 2] [-9/10, 17/10]]).toOption
+      = some ([0, 1, 2], [[1/2, -4/5, 0], [11/10, 3/10, 0], [-9/10, -9/10, 0]])
+    ∧ stepAt [0, 1 + 14/100000000000, 2] [-9/10, 17/10] (3/2) = 17/10
+    ∧ (fullCoeffsVWK true true true (1/10000000000)
+        [.arr [0, 1, 2] [1/2, -4/5], .arr [0, 1 + 7/100000000000, 2] [11/10, 3/10],
+         .arr [0, 1 + 14/100000000000, 2] [-9/10, 17/10]]).toOption
+      = some ([0, 1, 1 + 14/100000000000, 2], [[1/2, -4/5, -4/5, 0], [11/10, 3/10, 3/10, 0], [-9/10, -9/10, 17/10, 0]]) := by
+  decide +kernel
+
+/-- `fullCoeffs_eq_repaired` for every variant of the tree (advance step `w`, reference point `kk`) -/
+theorem fullCoeffs_eq_repaired_k (w kk : Bool) (tol : Rat) (chans : List (List Rat × List Rat)) (htol : 0 ≤ tol)
+    (hne : chans ≠ []) (hgr : ∀ c ∈ chans, GoodGrid c.1)
+    (hlen : ∀ c ∈ chans, c.2.length + 1 = c.1.length ∨ c.2.length = c.1.length)
+    (hsep : SepAll tol (chans.map (·.1))) :
+    fullCoeffsVWK true w kk tol (chans.map fun c => Chan.arr c.1 c.2) =
+      .ok (sortU (chans.map (·.1)).flatten,
+           chans.map fun c => (sortU (chans.map (·.1)).flatten).map (stepAt c.1 c.2)) := by
+  rw [fullCoeffsVWK_eq true w kk tol chans hne hsep]
+  exact fullCoeffs_eq_repaired_w w tol chans htol hne hgr hlen hsep
+
+example : (fullCoeffsVWK true true true (1/10000000000) [.arr [0, 1] [2, 3/4], .arr [0, 3/2, 2] [1/2, 1/4]]).toOption
+    = some ([0, 1, 3/2, 2], [[2, 0, 0, 0], [1/2, 1/2, 1/4, 0]]) := by decide +kernel
+
+/-- `run_analytically_is_time_ordered` for every variant of the tree -/
+theorem run_analytically_is_time_ordered_k {ι : Type*} [Fintype ι] [DecidableEq ι] (w kk : Bool)
+    (tol : Rat) (chans : List (List Rat × List Rat)) (htol : 0 ≤ tol) (hne : chans ≠ [])
+    (hgr : ∀ c ∈ chans, GoodGrid c.1)
+    (hlen : ∀ c ∈ chans, c.2.length + 1 = c.1.length ∨ c.2.length = c.1.length)
+    (hsep : SepAll tol (chans.map (·.1)))
+    (drift : Matrix ι ι ℂ) (ctrls : List (Matrix ι ι ℂ)) :
+    ∃ (T : List Rat) (rows : List (List Rat)) (Tend : Rat) (U : ℝ → Matrix ι ι ℂ),
+      fullCoeffsVWK true w kk tol (chans.map fun c => Chan.arr c.1 c.2) = .ok (T, rows) ∧ T.getLast? = some Tend ∧
+      U ((Tend : ℚ) : ℝ) = ordProdL (runAnalytically drift ctrls (slices T rows)) ∧
+      U 0 = 1 ∧ Continuous U ∧
+      (∀ (t : ℝ) (i j : ι), HasDerivWithinAt (fun s => U s i j)
+        (((-Complex.I) • (statedHam drift ctrls chans Tend t * U t)) i j) (Set.Ici t) t) ∧
+      (∀ t : ℝ, (∀ q ∈ T, ((q : ℚ) : ℝ) ≠ t) → ∀ i j : ι, HasDerivAt (fun s => U s i j)
+        (((-Complex.I) • (statedHam drift ctrls chans Tend t * U t)) i j) t) ∧
+      (∀ V : ℝ → Matrix ι ι ℂ, ContinuousOn V (Set.Icc 0 ((Tend : ℚ) : ℝ)) → V 0 = 1 →
+        (∀ t ∈ Set.Ico (0 : ℝ) ((Tend : ℚ) : ℝ), ∀ i j : ι, HasDerivWithinAt (fun s => V s i j)
+          (((-Complex.I) • (statedHam drift ctrls chans Tend t * V t)) i j) (Set.Ici t) t) →
+        ∀ t ∈ Set.Icc (0 : ℝ) ((Tend : ℚ) : ℝ), V t = U t) ∧
+      (∀ V : ℝ → Matrix ι ι ℂ, ContinuousOn V (Set.Icc 0 ((Tend : ℚ) : ℝ)) → V 0 = 1 →
+        (∀ t ∈ Set.Ioo (0 : ℝ) ((Tend : ℚ) : ℝ), (∀ q ∈ T, ((q : ℚ) : ℝ) ≠ t) → ∀ i j : ι,
+          HasDerivAt (fun s => V s i j) (((-Complex.I) • (statedHam drift ctrls chans Tend t * V t)) i j) t) →
+        ∀ t ∈ Set.Icc (0 : ℝ) ((Tend : ℚ) : ℝ), V t = U t) := by
+  obtain ⟨T, rows, Tend, U, h1, rest⟩ :=
+    run_analytically_is_time_ordered_w w tol chans htol hne hgr hlen hsep drift ctrls
+  exact ⟨T, rows, Tend, U, by rw [fullCoeffsVWK_eq true w kk tol chans hne hsep]; exact h1, rest⟩
 
 end QipVerif.C14
